@@ -12,6 +12,7 @@ pub struct Finding {
     pub properties: Vec<String>,
     pub switch: String,
     pub what: String,
+    pub raw: Value,
 }
 
 #[derive(Clone, Debug, Default)]
@@ -36,6 +37,7 @@ impl Findings {
                 properties: f["properties"].as_array().map(|a| a.iter().filter_map(|x| x.as_str().map(String::from)).collect()).unwrap_or_default(),
                 switch: f["switch"].as_str().unwrap_or("").to_string(),
                 what: f["what"].as_str().unwrap_or("").to_string(),
+                raw: f.clone(),
             });
         }
         Findings { known }
@@ -44,6 +46,11 @@ impl Findings {
     /// finding id that licenses `switch` for property `prop`
     pub fn allowed(&self, prop: &str, switch: &str) -> Option<&str> {
         self.known.iter().find(|f| f.switch == switch && f.properties.iter().any(|p| p == prop)).map(|f| f.id.as_str())
+    }
+
+    /// numeric parameter of a finding (e.g. the shallowest failing ladder depth)
+    pub fn param(&self, id: &str, key: &str) -> Option<u64> {
+        self.known.iter().find(|f| f.id == id).and_then(|f| f.raw[key].as_u64())
     }
 
     pub fn describe(&self, id: &str) -> String {
